@@ -55,7 +55,8 @@ func genC20Race(t *rapid.T) c20RaceCase {
 	case "bus":
 		ops = []string{"sub", "sub", "unsub", "unsub", "pub", "pub", "pub", "addtopic", "rmtopic"}
 	case "filters":
-		ops = []string{"newfilter", "newfilter", "newblockfilter", "uninstall", "uninstall", "changes", "tx", "tx", "tx", "header", "logs"}
+		ops = []string{"newfilter", "newfilter", "newblockfilter", "newpendingfilter", "uninstall", "uninstall", "changes", "tx", "tx", "tx", "header", "header", "logs",
+			"subheads", "sublogs", "subpending", "unsubrpc"}
 	default:
 		ops = []string{"index", "index", "byhash", "byhash", "byindex", "last"}
 	}
@@ -289,11 +290,68 @@ func runC20Race(cs c20RaceCase) *Outcome {
 		}
 		be := newC14BackendCfg(env.node, idx, map[string]interface{}{"json-rpc.filter-cap": 200, "json-rpc.logs-cap": 10000, "json-rpc.block-range-cap": 10000})
 		api := filters.NewPublicAPI(log.NewNopLogger(), env.node.cctx, wsc, be)
+		// the push API (eth_subscribe) goes through a real go-ethereum RPC server: its handlers hand their request
+		// context to the event system, which is how the filter system ends up with a context that is already done
+		srv := rpc.NewServer()
+		if err := srv.RegisterName("eth", api); err != nil {
+			o.Excluded = "cannot register the filter API: " + err.Error()
+			return o
+		}
+		defer srv.Stop()
 		var installing int32
 		run(func(ops []c20RaceOp) {
 			var ids []rpc.ID
+			type rsub struct {
+				sub *rpc.ClientSubscription
+			}
+			var rsubs []rsub
+			client := rpc.DialInProc(srv)
+			pushSub := func(args ...interface{}) {
+				ch := make(chan json.RawMessage, 256)
+				ctx, cancel := context.WithTimeout(context.Background(), 20*time.Second)
+				defer cancel()
+				atomic.AddInt32(&installing, 1)
+				sub, err := client.EthSubscribe(ctx, ch, args...)
+				atomic.AddInt32(&installing, -1)
+				if err != nil {
+					return
+				}
+				rsubs = append(rsubs, rsub{sub})
+				go func() {
+					for {
+						select {
+						case <-ch:
+						case <-sub.Err():
+							return
+						}
+					}
+				}()
+			}
 			for _, op := range ops {
 				switch op.Op {
+				case "subheads":
+					pushSub("newHeads")
+				case "subpending":
+					pushSub("newPendingTransactions")
+				case "sublogs":
+					crit := map[string]interface{}{"topics": c20Topics[op.Crit%len(c20Topics)]}
+					if op.N%2 == 1 {
+						crit["address"] = common.HexToAddress(poolAddr(op.N % 5))
+					}
+					pushSub("logs", crit)
+				case "unsubrpc":
+					if len(rsubs) > 0 {
+						atomic.AddInt32(&installing, 1)
+						rsubs[0].sub.Unsubscribe()
+						atomic.AddInt32(&installing, -1)
+						rsubs = rsubs[1:]
+					}
+				case "newpendingfilter":
+					atomic.AddInt32(&installing, 1)
+					if id := api.NewPendingTransactionFilter(); !strings.HasPrefix(string(id), "error") {
+						ids = append(ids, id)
+					}
+					atomic.AddInt32(&installing, -1)
 				case "newfilter":
 					crit := ethfilters.FilterCriteria{Topics: c20Topics[op.Crit%len(c20Topics)]}
 					if op.N%2 == 1 {
@@ -327,7 +385,7 @@ func runC20Race(cs c20RaceCase) *Outcome {
 					cancel()
 				case "tx":
 					ev := env.events[(op.N*7+op.Crit)%len(env.events)]
-					if ws.PublishMatching("message.module", ev.Data, ev.Events) > 0 && atomic.LoadInt32(&installing) > 0 {
+					if ws.PublishMatching("'Tx'", ev.Data, ev.Events) > 0 && atomic.LoadInt32(&installing) > 0 {
 						atomic.AddInt32(&overlap, 1)
 					}
 				case "header":
@@ -337,10 +395,19 @@ func runC20Race(cs c20RaceCase) *Outcome {
 				}
 			}
 			time.Sleep(20 * time.Millisecond)
+			// the push client goes away first (its request contexts end with it), then the polling filters are removed
+			client.Close()
 			for _, id := range ids {
 				api.UninstallFilter(id)
 			}
 		})
+		// deliveries after everybody has left: the node keeps sending events of queries whose cancellation never arrived
+		for i := 0; i < 3; i++ {
+			ev := env.events[i%len(env.events)]
+			ws.PublishMatching("'Tx'", ev.Data, ev.Events)
+			blk, _ := env.node.f.Block(context.Background(), &env.blocks[0].Height)
+			ws.PublishMatching("NewBlockHeader", cmttypes.EventDataNewBlockHeader{Header: blk.Block.Header}, map[string][]string{"tm.event": {"NewBlockHeader"}})
+		}
 		time.Sleep(50 * time.Millisecond) // let in-flight deliveries hit the (un)installed subscriptions
 
 	case "indexer":
